@@ -138,6 +138,12 @@ func initFlowBody(n int, withCancel bool) func() {
 
 // invokeFlowBody: two consecutive rounds on a real InvokeFlowSynchronization (re-armed, not recreated).
 func invokeFlowBody(k int, rounds int, withCancel bool) func() {
+	return invokeFlowBodyMissing(k, rounds, withCancel, "")
+}
+
+// invokeFlowBodyMissing: as invokeFlowBody, but in the last round one party never makes its arrival ("response",
+// "runtimeReady" or "agent"): only the cancellation can release the orchestrator, whichever barrier it waits at.
+func invokeFlowBodyMissing(k int, rounds int, withCancel bool, missing string) func() {
 	return func() {
 		f := core.NewInvokeFlowSynchronization()
 		r := &flowRec{arrived: map[string]int{}}
@@ -153,12 +159,23 @@ func invokeFlowBody(k int, rounds int, withCancel bool) func() {
 				}
 			}
 			var ths []*sched.Thread
+			last := round == rounds-1
 			ths = append(ths, sched.Go("runtime", func() {
+				if last && missing == "response" {
+					return
+				}
 				r.arrive("response", f.RuntimeResponse(nil))
+				if last && missing == "runtimeReady" {
+					return
+				}
 				r.arrive("runtimeReady", f.RuntimeReady(nil))
 			}))
 			for i := 0; i < k; i++ {
+				i := i
 				ths = append(ths, sched.Go(fmt.Sprintf("agent%d", i), func() {
+					if last && missing == "agent" && i == 0 {
+						return
+					}
 					r.arrive("agentReady", f.AgentReady())
 				}))
 			}
@@ -254,6 +271,12 @@ func flowScenarios(tier string) []hx.Scenario {
 		add(fmt.Sprintf("initflow/agents=%d/cancel", n), initFlowBody(n, true), b)
 		add(fmt.Sprintf("invokeflow/agents=%d/rounds=2", n), invokeFlowBody(n, 2, false), b)
 		add(fmt.Sprintf("invokeflow/agents=%d/rounds=2/cancel", n), invokeFlowBody(n, 2, true), b)
+		for _, miss := range []string{"response", "runtimeReady", "agent"} {
+			if miss == "agent" && n == 0 {
+				continue
+			}
+			add(fmt.Sprintf("invokeflow/agents=%d/rounds=2/cancel/%s-never-arrives", n, miss), invokeFlowBodyMissing(n, 2, true, miss), b)
+		}
 	}
 	for _, ra := range []int{-1, 0, 5, 10, 15} {
 		add(fmt.Sprintf("deadline/readyAt=%dms/deadline=10ms", ra), deadlineBody(ra, 10), b)
